@@ -279,12 +279,12 @@ Proof.
     - destruct (Z.leb_spec clk (ret_ts old)); (split; [lia|]); intros ? [= <-]; lia.
     - split; [done|]. by intros. }
   destruct Hst as [Hpos Hgt].
-  assert (Heff : ret_eff (RMsg (Publish topic "" 0 false) 0 st) = true).
+  assert (Heff : ret_eff (RMsg (Publish topic "" 0 false false) 0 st) = true).
   { unfold ret_eff, ret_added, is_added, is_removed. cbn. rewrite (proj2 (Z.ltb_lt 0 st)) by done. done. }
   rewrite Heff. unfold abs_ret, amerge1, ajoin, ret_key. cbn [r_pub p_topic].
   destruct (decide (k = topic)) as [->|Hne]; [|by rewrite alookup_aset_ne].
   rewrite alookup_aset_eq. destruct (alookup topic (d_ret d)) as [old|] eqn:Ho; [|done].
-  specialize (Hgt old eq_refl). assert (Hts : ret_ts (RMsg (Publish topic "" 0 false) 0 st) = st).
+  specialize (Hgt old eq_refl). assert (Hts : ret_ts (RMsg (Publish topic "" 0 false false) 0 st) = st).
   { unfold ret_ts. cbn. rewrite last_update_max. lia. }
   rewrite Hts. by rewrite (proj2 (Z.ltb_lt _ _) Hgt).
 Qed.
@@ -461,7 +461,9 @@ Proof.
         intros k. apply (sess_write d r [m]); [by split|done|by repeat constructor|apply NoDup_singleton|].
         constructor; [|constructor]. cbn. intros old Ho. specialize (Hfresh old Ho).
         unfold sess_ts at 2. cbn. rewrite last_update_max. lia. }
-    destruct (alookup id (d_sess d)) as [old|]; [destruct (sess_added old)|]; cbn [fst snd]; [done|exact Hgo|exact Hgo].
+    assert (Hdok : dok d) by (split; [by split|done|by split]).
+    destruct (alookup id (d_sess d)) as [old|]; [destruct (sess_added old)|];
+      (destruct (utf8_ok id && utf8_ok cid && utf8_ok mp); cbn [fst snd]; [first [done|exact Hgo]|done]).
   - (* sess_delete *)
     unfold sess_delete. destruct (alookup id (d_sess d)) as [old|] eqn:Ho; [|by split].
     destruct (is_removed (m_la old) (m_ld old)); [by split|]. cbn [fst snd].
@@ -556,7 +558,7 @@ Proof.
       rewrite !(merge_ret_abs [rm]) by (by repeat constructor). by apply amerge_ext.
   - (* ret_delete *)
     destruct Hval as [Ht Hclk]. cbn [ret_delete fst snd].
-    set (st := ret_stamp d topic clk). set (rm := RMsg (Publish topic "" 0 false) 0 st).
+    set (st := ret_stamp d topic clk). set (rm := RMsg (Publish topic "" 0 false false) 0 st).
     assert (Hpos : 0 < st).
     { unfold st, ret_stamp. destruct (alookup topic (d_ret d)) as [old|]; [destruct (Z.leb_spec clk (ret_ts old))|]; lia. }
     assert (Heff : ret_eff rm = true).
